@@ -198,23 +198,25 @@ structure Fmt where
   fifo : Bool
   hardlinks : Bool
   sparse : Bool
+  root : Bool            -- is an entry for "." itself stored?
   deriving Repr
 
 def fmtOf : String → Fmt
-  | "pax" => ⟨1, true, true, true⟩
-  | "paxr" => ⟨1000000000, true, true, true⟩
-  | "gnutar" => ⟨1000000000, true, true, false⟩
-  | "ustar" => ⟨1000000000, true, true, false⟩
-  | "newc" => ⟨1000000000, true, true, false⟩
-  | "odc" => ⟨1000000000, true, true, false⟩
-  | "zip" => ⟨1000000000, false, false, false⟩
-  | "7zip" => ⟨100, false, false, false⟩
-  | "xar" => ⟨1000000000, true, true, false⟩
-  | "iso9660" => ⟨1000000000, false, true, false⟩
-  | _ => ⟨1, true, true, true⟩
+  | "pax" => ⟨1, true, true, true, true⟩
+  | "paxr" => ⟨1000000000, true, true, true, true⟩
+  | "gnutar" => ⟨1000000000, true, true, false, true⟩
+  | "ustar" => ⟨1000000000, true, true, false, true⟩
+  | "newc" => ⟨1000000000, true, true, false, true⟩
+  | "odc" => ⟨1000000000, true, true, false, true⟩
+  | "zip" => ⟨1000000000, false, false, false, true⟩
+  | "7zip" => ⟨100, true, false, false, true⟩
+  | "xar" => ⟨1000000000, true, true, false, false⟩
+  | "iso9660" => ⟨1000000000, false, true, false, true⟩
+  | _ => ⟨1, true, true, true, true⟩
 
 def normEntry (f : Fmt) (e : Entry) : Option Entry :=
   if e.ftype == .fifo && !f.fifo then none else
+  if e.path == [] && !f.root then none else
   some { e with mtime := { e.mtime with nsec := e.mtime.nsec / f.nsDiv * f.nsDiv },
                 nlink := if f.hardlinks || e.ftype == .dir then e.nlink else 1 }
 
@@ -224,6 +226,7 @@ def hasFlag (s : String) (c : Char) : Bool := s.toList.contains c
 def archiveOf (fmt : String) (es : List Entry) : List Entry :=
   if fmt == "newc" then cpioArchive .newCpio es
   else if fmt == "odc" then cpioArchive .oldCpio es
+  else if fmt == "xar" then xarArchive es
   else linkify .tar es
 
 def renderSt (l : List St) : String :=
@@ -323,7 +326,7 @@ def stepLine (d : DState) (op obs : String) : DState × String :=
                       umask := 0o022, sameOwner := uid == "0" }
     let es := capture (buildTree d d.order)
     let kept := es.filterMap (normEntry f)
-    let w := if kept.length == es.length then "ok" else "failed"
+    let w := if (es.filter fun e => e.ftype == .fifo && !f.fifo).isEmpty then "ok" else "failed"
     let r := restore o 0o755 (archiveOf fmt kept)
     (d, s!"R w={w} " ++ renderSt r.2 ++ renderSnap d (f.sparse || hasFlag flags 's') r.1)
   | ["cli", tool, fmt, _copts, xopts, uid] =>
